@@ -1,23 +1,41 @@
 /-
 Property C07 — the Processor evaluates multi-engine trees faithfully and only annotates payloads.
 
-Claimed at translation_validation level: the Processor is modelled (`Model/Processor.lean`, with the two hooks
-instantiated the way the harness instantiates them) and tied to the real `Processor.process` by the
-correspondence run; the end-to-end statement (rows of the processed tree = direct evaluation) is checked by the
-oracle on every generated program, not proved.
-SUPPORTING theorems (machine-checked, about the model's `_process_recursive`):
+Claimed at proof level, partial: proved for trees that span several ITERATION engines (the Processor model of
+`Model/Processor.lean`, hooks instantiated as the harness instantiates them, tied to the real `Processor.process`
+by the correspondence run); trees that involve a SQL engine are validated by the oracle on every generated
+program.
+  * `multi_engine_process_then_execute_yields_direct_rows`: for every tree of leaves, unary operations, chains,
+    transfers BETWEEN iteration engines and materializations of single-engine subtrees, nested to any depth:
+    whenever `Processor.process` succeeds, the returned tree has the engine and the columns of the input and
+    executing it in its final engine yields exactly the rows - values, multiplicity, order - of the direct
+    evaluation of the input.  Behind it, `multi_engine_processing_invariant` (induction over the tree through the
+    monadic model): every hook is called on a source its own engine executes (`exec_correct`, C01) and its rows
+    are the direct evaluation of that source; every payload attached - to a new Transfer node with a FRESH
+    allocation id, or to a Materialization of the input - holds the rows registered for that marker; re-applied
+    operations (`operation.apply(new_target)`, `binary.apply`) preserve rows (C05); a chain operand that is
+    statically empty is dropped only when it really is empty (C06).
+Further theorems (machine-checked, about the model's `_process_recursive`):
   * `processed_relation_is_left_alone`: a relation that already holds a payload is returned as it is (`same`), no
     hook is called, nothing is attached, the state does not change - at any recursion budget, for any
     `materialize_as`; hence `reprocessing_calls_no_hook` for `Processor.process` itself;
   * `fully_processed_tree_is_returned_unchanged`: a tree all of whose leaves and markers hold payloads (what a
     processed tree looks like), through any nesting of unary and binary operations, is returned as the SAME object,
     with no hook call, no payload attached and no state change - processing is idempotent on its own results;
+  * `single_engine_tree_is_only_annotated` / `process_then_execute_yields_direct_rows`: for every tree inside ONE
+    iteration engine - leaves, any unary operations, chains, materializations nested to any depth (`Rel.PlainIter`:
+    no statically trivial materialization, no statically empty chain operand) - `process` returns the tree itself,
+    creates no node, leaves the payload store right (every payload it attached holds exactly the rows of the direct
+    evaluation of the materialization's target: the `materialize` hook evaluates through the engine model proved
+    correct for C01), and executing the tree afterwards yields exactly the rows of its direct evaluation;
   * `trivial_transfer_calls_no_hook`: a Transfer that is statically a join identity, or statically empty
     (`max_rows == 0`), gets the engine's trivial payload: the hook log is unchanged, and the node returned is a NEW
     Transfer over the untouched target - the input node is not annotated.
 -/
 import DafRel.Model.Processor
 import DafRel.Spec.Processor
+import DafRel.Lemmas.ProcIter
+import DafRel.Lemmas.ProcMulti
 
 namespace DafRel.Props.C07
 
@@ -105,6 +123,46 @@ theorem fully_processed_tree_is_returned_unchanged (σ : Leaves) (s : ProcState)
           liftM, monadLift, MonadLift.monadLift, ExceptT.lift, ExceptT.run, StateT.run, pure, ExceptT.pure, StateT.pure,
           Functor.map, StateT.map, ProcState.payloadOf, ih1, ih2, Res.get]
 
+/-- **The Processor only annotates a single-engine tree**: the SAME tree comes back, no node is created, the payload
+store stays right (`StoreOK`: every payload holds the rows registered for its marker - for the materializations of
+the tree, the rows of the direct evaluation of their targets), and a processed materialization holds a payload. -/
+theorem single_engine_tree_is_only_annotated (σ : Leaves) (reg : Nat → Option (List Row)) (e : Engine)
+    (hek : e.kind = .iter) (t : Rel) (fuel : Nat) (matAs : Option String) (s : ProcState)
+    (hp : t.PlainIter e) (hio : t.IterOK) (hwf : t.WF) (htr : t.Truthful σ) (hkd : keyDetermined σ t = true)
+    (hreg : t.RegOK σ reg) (hs : StoreOK σ reg s.st) (hq : s.sq.payloads = []) (hf : t.size ≤ fuel) :
+    ∃ s', (processRec σ fuel t matAs).run.run s = (.ok (.same, t.procFlag), s') ∧ StoreOK σ reg s'.st ∧
+      s'.nextTemp = s.nextTemp ∧ (t.procFlag = true → (s'.payloadOf t).isSome = true) := by
+  obtain ⟨s', h, P⟩ := process_plain_iter σ reg e hek t fuel matAs s hp hio hwf htr hkd hreg hs hq hf
+  exact ⟨s', h, P.store, P.temp, P.cached⟩
+
+/-- **Process, then execute, yields the direct rows** (single iteration engine). -/
+theorem process_then_execute_yields_direct_rows (σ : Leaves) (reg : Nat → Option (List Row)) (e : Engine)
+    (hek : e.kind = .iter) (t : Rel) (st : ExecState) (hp : t.PlainIter e) (hio : t.IterOK) (hwf : t.WF)
+    (htr : t.Truthful σ) (hkd : keyDetermined σ t = true) (hreg : t.RegOK σ reg) (hs : StoreOK σ reg st)
+    (hf : t.size ≤ defaultFuel) :
+    ∃ ps, processTop σ st {} t = (.ok .same, ps) ∧
+      ∃ it s', exec σ t.engine t ps.st = .ok (it, s') ∧ it.rows σ = .ok (sem σ t) :=
+  process_then_execute σ reg e hek t st hp hio hwf htr hkd hreg hs hf
+
+/-- **What processing a tree over several iteration engines achieves** (every recursion budget, any
+`materialize_as`, any starting state whose payload store is right): the registry of marker contents extends to the
+fresh nodes (`RegExt`), and relative to it the returned tree is executable, well-formed, truthful, has a right payload
+store, the rows and columns of the input and its engine. -/
+theorem multi_engine_processing_invariant (σ : Leaves) (t : Rel) (fuel : Nat) (matAs : Option String)
+    (s : ProcState) (reg : Nat → Option (List Row)) (hm : t.MultiIter) (T : TreeInv σ reg t s) (hf : t.size ≤ fuel)
+    (res : Res) (b : Bool) (s' : ProcState) (h : (processRec σ fuel t matAs).run.run s = (.ok (res, b), s')) :
+    ∃ reg', RegExt reg reg' s.nextTemp ∧ ProcMultiOK σ reg' t s res s' :=
+  process_multi_iter σ t fuel matAs s reg hm T hf res b s' h
+
+/-- **Process a multi-engine tree, execute the result: the rows of direct evaluation.** -/
+theorem multi_engine_process_then_execute_yields_direct_rows (σ : Leaves) (reg : Nat → Option (List Row)) (t : Rel)
+    (st : ExecState) (hm : t.MultiIter) (hio : t.IterOK) (hwf : t.WF) (htr : t.Truthful σ)
+    (hkd : keyDetermined σ t = true) (hreg : t.RegOK σ reg) (hb : t.markersBelow tempBase) (hs : StoreOK σ reg st)
+    (hf : t.size ≤ defaultFuel) (res : Res) (ps : ProcState) (h : processTop σ st {} t = (.ok res, ps)) :
+    (res.get t).engine = t.engine ∧ (∀ u, u ∈ (res.get t).columns ↔ u ∈ t.columns) ∧
+      ∃ it s', exec σ (res.get t).engine (res.get t) ps.st = .ok (it, s') ∧ it.rows σ = .ok (sem σ t) :=
+  process_multi_then_execute σ reg t st hm hio hwf htr hkd hreg hb hs hf res ps h
+
 /-- A statically trivial Transfer gets the destination engine's trivial payload: no hook is called, and the node
 that receives the payload is a NEW Transfer (a fresh allocation id) over the untouched target. -/
 theorem trivial_transfer_calls_no_hook (σ : Leaves) (fuel : Nat) (oid : Nat) (dest : Engine) (target : Rel)
@@ -146,5 +204,31 @@ example : (Rel.unary (.sel (.lit true)) (Rel.binary .chain leafP leafP [ta]) [ta
   exact ⟨hp, hp, by decide, by decide⟩
 example : (s0.payloadOf (.transfer 7 e0 doomed)).isSome = false ∧ (Rel.transfer 7 e0 doomed).maxRows = some 0 := by
   decide
+
+/-- a materialized selection over a one-row leaf: every hypothesis of the two theorems above is met -/
+private def σ1 : Leaves := fun _ => [fun t => if t = ta then some 1 else none]
+private def matT : Rel := .mat 5 "m" (.unary (.sel (.fn .gt [.ref ta, .lit 0] none)) leafP [ta])
+private def reg1 : Nat → Option (List Row) := fun o => if o = 5 then some (sem σ1 (.unary (.sel (.fn .gt [.ref ta, .lit 0] none)) leafP [ta])) else none
+example : matT.PlainIter e1 ∧ matT.IterOK ∧ matT.WF ∧ matT.Truthful σ1 ∧ keyDetermined σ1 matT = true ∧
+    matT.RegOK σ1 reg1 ∧ StoreOK σ1 reg1 {} ∧ matT.size ≤ defaultFuel := by
+  refine ⟨⟨rfl, by decide, by decide⟩, ⟨rfl, rfl, rfl⟩, ⟨trivial, rfl, by decide⟩, ⟨?_, Nat.zero_le _, fun m hm => by cases hm⟩,
+    rfl, ⟨rfl, trivial⟩, StoreOK_empty σ1 reg1, by decide⟩
+  intro r hr
+  simp [σ1] at hr
+  subst hr
+  intro t
+  by_cases h : t = ta <;> simp_all [ta]
+
+/-- a selection over a transfer (engine 1 -> engine 2) of a materialized selection: the hypotheses of the multi-engine
+theorem are met, and processing succeeds -/
+private def e2 : Engine := ⟨2, .iter⟩
+private def multiT : Rel := .unary (.sel (.fn .gt [.ref ta, .lit 0] none)) (.transfer 6 e2 matT) [ta]
+example : multiT.MultiIter ∧ multiT.IterOK ∧ multiT.WF ∧ multiT.markersBelow tempBase ∧ multiT.size ≤ defaultFuel := by
+  refine ⟨⟨⟨rfl, rfl, by decide, by decide⟩, rfl, by decide, by decide⟩,
+    ⟨⟨⟨rfl, rfl, rfl⟩, rfl⟩, rfl, rfl⟩, ⟨⟨trivial, rfl, by decide⟩, rfl, by decide⟩, ⟨by decide, by decide, trivial⟩,
+    by decide⟩
+example : (match processTop σ1 {} {} multiT with
+    | (.ok res, _) => (res.get multiT).engine.id
+    | _ => 99) = 2 := by decide +kernel
 
 end DafRel.Props.C07
